@@ -79,11 +79,11 @@ reduce = cm.reduce_model_case
 
 
 def nontrivial(case):
-    return case[0] in ('B', 'DC', 'SF', 'SO') or cm.has_group_or_ctc(case[1])
+    return case[0] in ('B', 'DC', 'SF', 'SO', 'WIDE') or cm.has_group_or_ctc(case[1])
 
 
 def reduce(case):  # noqa: F811
-    if case[0] in ('B', 'DC'):
+    if case[0] in ('B', 'DC', 'WIDE'):
         return
     yield from cm.reduce_model_case(case)
 
